@@ -231,7 +231,35 @@ def sibling(rng, f, allowed=None):
     return rep(f, path)
 
 
+def consumes(p):
+    """every run of the path takes at least one step"""
+    t = p[0]
+    if t in ('skip', 'patom'):
+        return True
+    if t == 'test' or t == 'star':
+        return False
+    if t == 'choice':
+        return consumes(p[1]) and consumes(p[2])
+    if t == 'seq':
+        return consumes(p[1]) or consumes(p[2])
+    return False
+
+
+def normal_form(d):
+    """documented normal form of &del formulas: iteration only over paths that consume a step"""
+    if not isinstance(d, tuple):
+        return True
+    if d[0] == 'star' and not consumes(d[1]):
+        return False
+    return all(normal_form(x) for x in d[1:] if isinstance(x, tuple))
+
+
 def related(rng, f, kind='tel'):
+    g = related0(rng, f, kind)
+    return g if (kind != 'del' or normal_form(g)) else f
+
+
+def related0(rng, f, kind='tel'):
     """a formula related to f: f itself, a sub-formula, a sibling, or f seen late through a past operator"""
     k = rng.random()
     if k < 0.2:
